@@ -246,15 +246,14 @@ pub(crate) mod __verif_k {
     fn c04_untrace_flat() {
         let mut gc = GC::new();
         let a = f(&mut gc, kani::any());
-        let b = f(&mut gc, kani::any());
         let mut other = GC::new();
         let foreign = f(&mut other, 1);
         gc.untrace(foreign);
-        assert!(gc.objects.len() == 2);
+        assert!(gc.objects.len() == 1 && std::ptr::eq(gc.objects[0].as_ptr(), a.as_ptr()));
         gc.untrace(a);
-        assert!(gc.objects.len() == 1 && std::ptr::eq(gc.objects[0].as_ptr(), b.as_ptr()));
+        assert!(gc.objects.len() == 0);
         gc.untrace(a);
-        assert!(gc.objects.len() == 1);
+        assert!(gc.objects.len() == 0 && other.objects.len() == 1);
         kani::cover!(true);
         std::mem::forget(gc);
         std::mem::forget(other);
@@ -267,8 +266,8 @@ pub(crate) mod __verif_k {
         let mut gc = GC::new();
         let x: u64 = kani::any();
         let a = f(&mut gc, x);
-        let roots = [Object::int(3), a, Object::null()];
-        gc.run(&[&[], &roots]);
+        let roots = [a];
+        gc.run(&[&roots]);
         assert!(gc.objects.len() == 1 && std::ptr::eq(gc.objects[0].as_ptr(), a.as_ptr()));
         assert!(is_float(a, x));
         kani::cover!(x == 5);
